@@ -18,8 +18,11 @@ CONSTANTS IncludeNames, MaxIncludes
 VARIABLES f, q
 
 Nd(name, pod, lab, bypass, test, alive) == [name |-> name, pod |-> pod, lab |-> lab, bypass |-> bypass, test |-> test, alive |-> alive]
+\* label sets are named by a code: "" none, "k" {k=v}, "m" {m=""} (a marker: a key with an empty value), "km" both, "k0" {k=""}
+LabSet(c) == CASE c = "" -> {} [] c = "k" -> {<<"k", "v">>} [] c = "m" -> {<<"m", "">>} [] c = "km" -> {<<"k", "v">>, <<"m", "">>}
+               [] c = "k0" -> {<<"k", "">>}
 Universe == {Nd("n1", "p1", "k", FALSE, TRUE, TRUE), Nd("n2", "p1", "", FALSE, TRUE, TRUE), Nd("n3", "p1", "", TRUE, TRUE, TRUE),
-             Nd("n4", "p1", "k", FALSE, FALSE, FALSE), Nd("n5", "p1", "", TRUE, FALSE, TRUE), Nd("n6", "p1", "", FALSE, FALSE, TRUE),
+             Nd("n4", "p1", "k", FALSE, FALSE, FALSE), Nd("n5", "p1", "m", TRUE, FALSE, TRUE), Nd("n6", "p1", "km", FALSE, FALSE, TRUE),
              Nd("n2b", "p2", "k", FALSE, TRUE, TRUE)}
 Names == {n.name : n \in Universe}
 Up(n) == ~n.bypass /\ (n.test \/ n.alive)
@@ -28,7 +31,7 @@ Range(s) == {s[i] : i \in 1..Len(s)}
 Select(x) == IF x.includes # <<>>
              THEN (IF Range(x.includes) \subseteq Names THEN Range(x.includes) ELSE {"!error"})
              ELSE {n.name : n \in {m \in Universe : /\ (x.pod = "" \/ m.pod = x.pod)
-                                                    /\ (x.label = "" \/ m.lab = x.label)
+                                                    /\ LabSet(x.label) \subseteq LabSet(m.lab)            \* carries every requested label with the requested value
                                                     /\ m.name \notin Range(x.excludes)
                                                     /\ (x.all \/ Up(m))}}
 PodsOf(S) == {n.pod : n \in {m \in Universe : m.name \in S}}
@@ -36,7 +39,7 @@ PodsOf(S) == {n.pod : n \in {m \in Universe : m.name \in S}}
 Seqs(S, k) == UNION {[1..i -> S] : i \in 0..k}
 Filters == {[pod |-> "p1", includes |-> inc, excludes |-> <<>>, label |-> "", all |-> a] : inc \in Seqs(IncludeNames, MaxIncludes) \ {<<>>}, a \in {TRUE}}
            \cup {[pod |-> p, includes |-> <<>>, excludes |-> ex, label |-> lb, all |-> a] :
-                    p \in {"p1", "p2", ""}, ex \in {<<>>, <<"n1">>, <<"n2", "n1">>, <<"zz">>}, lb \in {"", "k"}, a \in BOOLEAN}
+                    p \in {"p1", "p2", ""}, ex \in {<<>>, <<"n1">>, <<"n2", "n1">>, <<"zz">>}, lb \in {"", "k", "m", "km", "k0"}, a \in BOOLEAN}
 Init == f \in Filters /\ q = 0
 Next == q = 0 /\ q' = 1 /\ UNCHANGED f
 Spec == Init /\ [][Next]_<<f, q>>
